@@ -145,7 +145,10 @@ Definition safe (f : fs) (p : path) : bool :=
 Definition wf_fs (f : fs) : Prop :=
   forall p e, lookup f p = Some e -> p <> [] /\ all_dirs f (parent p) = true.
 
-Inductive op := OCreateDir | ORemoveDir | OCreateNew | OWrite | ORemoveFile | OSymlink | OLstat.
+(** [OLstatQ]: an lstat the code performs inside an error arm (after a failed create_dir /
+    remove_file), where no add-only observation hook can be placed; same semantics as
+    [OLstat], projected out when the trace is compared with the hooked real trace. *)
+Inductive op := OCreateDir | ORemoveDir | OCreateNew | OWrite | ORemoveFile | OSymlink | OLstat | OLstatQ.
 Record event := mkEv { ev_op : op; ev_path : path; ev_safe : bool }.
 
 Record world := mkW { w_fs : fs; w_tr : list event }.
@@ -236,6 +239,16 @@ Inductive lres := LUnsafe | LNone | LSome (e : entry).
 Definition p_lstat (w : world) (p : path) : lres * world :=
   let s := safe (w_fs w) p in
   let w := log w OLstat p s in
+  if negb s then (LUnsafe, w)
+  else match lookup (w_fs w) p with
+       | None => (LNone, w)
+       | Some e => (LSome e, w)
+       end.
+
+(** The same call at a place the observation hooks cannot reach. *)
+Definition p_lstat_q (w : world) (p : path) : lres * world :=
+  let s := safe (w_fs w) p in
+  let w := log w OLstatQ p s in
   if negb s then (LUnsafe, w)
   else match lookup (w_fs w) p with
        | None => (LNone, w)
